@@ -180,6 +180,12 @@ def run(repo: Repo, rep: Report, tier: str) -> None:
                       "map saved by value; shadowed names restored from the saved copy" if by_value and reads_saved_values else
                       f"only the keys of {attr} are saved: `Signal x = ...; for i in 0..2 {{ Signal x = ...; }} Signal y = x + 1;` reads the last iteration's x (and a nested iterator of the same name overwrites the outer one)",
                       lf.loc(restored[0]))
+            # ... and only for those names: what the body assigns to names that already existed outside the loop (an outer entity
+            # re-bound with `e = place(...)`) must persist, so the rebuilt map has to read the *current* map too
+            keeps_current = any(isinstance(x, ast.Attribute) and _lowerer_attr(x) == attr and isinstance(x.ctx, ast.Load) for r in restored for x in ast.walk(r.value))
+            rep.check(keeps_current, "C16-R3", f"lower_for_stmt keeps what an iteration assigns to outer names in ASTLowerer.{attr}",
+                      "rebuilt from the current map (outer names keep the iteration's assignments)" if keeps_current else
+                      f"{attr} is replaced by the pre-iteration snapshot: `Entity cur = place(...); for i in 0..3 {{ cur = place(...); }}` loses every re-binding, the next iteration and the code after the loop see the old entity", lf.loc(restored[0]))
     vf = repo.func("SemanticAnalyzer.visit_ForStmt")
     cvf = canon(vf)
     vloops = [n for n in walk_local(vf.node) if isinstance(n, ast.For) and isinstance(cvf.node(n.iter), ast.Call) and call_name(cvf.node(n.iter)) == "get_iteration_values"]
